@@ -77,6 +77,35 @@ GROUPS1 = [
 	(['ql0', 'ql1', 'ql2'], [['a', 'b', 'm'], ['v', 'v2', 'v_'], ['Idle_', 'idle', 'i']]),
 	(['Qe0', 'qr0'], [['Modes', 'code'], ['Idle_Modes', 'idle_code'], ['M', 'm_']]),
 ]
+P2 = '''class Qb0:
+	qf0: int
+
+	def __init__(self, qo0: 'Qb0', qm0: int) -> None:
+		self.qf0 = qm0
+		qo0.qf0 = 5
+		self.qs0(qm0)
+
+	def qs0(self, qm0: int) -> None:
+		self.qf0 = qm0 + 1
+
+class Qc0:
+	qf1: int
+
+	def __init__(self, qf1: int) -> None:
+		self.qf1 = qf1
+
+class Qh0:
+	def qk0(self) -> Qc0:
+		return Qc0(1)
+
+def qr0(qi0: list[Qc0]) -> None:
+	qi0.sort(key=lambda qe0: qe0.qf1)
+'''
+GROUPS2 = [
+	(['qo0', 'qs0'], [['other', 'setup'], ['selfish', 'setup'], ['other', 'post__init__'], ['self_', 'do__init__'], ['myself', 'init'], ['selfother', 'x__init__']]),
+	(['qe0', 'qf1', 'qi0'], [['entry', 'value', 'items'], ['e', 'value', 'items'], ['v', 'value', 'values'], ['a', 'b', 'ab'], ['it', 'item', 'items'], ['value_', 'value', 'value__']]),
+	(['Qc0', 'Qh0', 'qk0', 'Qb0', 'qf0', 'qm0', 'qr0'], [['Cursor', 'Holder', 'cursor', 'Box', 'n', 'm', 'order'], ['IteratorState', 'Holder', 'cursor', 'Box', 'n', 'm', 'order'], ['ItemsViewer', 'Iterator_', 'iterator', 'Box', 'n', 'm', 'order'], ['Cursor', 'CursorHolder', 'Cursor_', 'selfBox', 'self_n', 'selfm', 'sort']]),
+]
 TEMPLATE: int = int(CASE.get('template', 0))
 _BASE: dict = {}
 
@@ -88,7 +117,7 @@ def rename(text: str, mapping: dict) -> str:
 
 def check_renaming(choices: list) -> bool:
 	mapping = {}
-	groups, program = (GROUPS, P0) if TEMPLATE == 0 else (GROUPS1, P1)
+	groups, program = [(GROUPS, P0), (GROUPS1, P1), (GROUPS2, P2)][TEMPLATE]
 	for (bases, pool), c in zip(groups, choices):
 		for b, new in zip(bases, pool[c]):
 			mapping[b] = new
@@ -125,9 +154,17 @@ def enum_renaming_law(c0: int, c1: int, c2: int) -> bool:
 	return ok(natively(check_renaming, [decode(c0, 6), decode(c1, 3), decode(c2, 3)]))
 
 
+def ctor_renaming_law(c0: int, c1: int, c2: int) -> bool:
+	"""
+	pre: 0 <= c0 < 6 and 0 <= c1 < 6 and 0 <= c2 < 4
+	post: _
+	"""
+	return ok(natively(check_renaming, [decode(c0, 6), decode(c1, 6), decode(c2, 4)]))
+
+
 def explain_renaming(*choices: int) -> str:
 	mapping = {}
-	groups, program = (GROUPS, P0) if TEMPLATE == 0 else (GROUPS1, P1)
+	groups, program = [(GROUPS, P0), (GROUPS1, P1), (GROUPS2, P2)][TEMPLATE]
 	for (bases, pool), c in zip(groups, choices):
 		for b, new in zip(bases, pool[c]):
 			mapping[b] = new
@@ -138,4 +175,4 @@ def explain_renaming(*choices: int) -> str:
 
 
 CLASSIFIERS: dict = {}
-EXPLAIN = {'renaming_law': explain_renaming, 'enum_renaming_law': explain_renaming}
+EXPLAIN = {'renaming_law': explain_renaming, 'enum_renaming_law': explain_renaming, 'ctor_renaming_law': explain_renaming}
